@@ -79,6 +79,7 @@ def build_repo(args):
     if p.returncode != 0:
         raise splice.ExtractError('the repository does not compile: ' + p.stderr[-800:])
     arts = {}
+    feats = {}
     for line in p.stdout.split('\n'):
         if not line.startswith('{'):
             continue
@@ -90,7 +91,8 @@ def build_repo(args):
             for fn in d.get('filenames', []):
                 if fn.endswith('.rlib'):
                     arts[d['target']['name'].replace('-', '_')] = fn
-    return (os.path.join(REPO_TARGET, 'debug', 'deps'), arts)
+                    feats[d['target']['name'].replace('-', '_')] = sorted(d.get('features', []))
+    return (os.path.join(REPO_TARGET, 'debug', 'deps'), arts, feats)
 
 
 class UnitRun:
@@ -102,13 +104,15 @@ class UnitRun:
         self.canaries = canaries
 
 
-def run_unit(name, carve=None, mutate=None, tag='main', verify_fn=None, timeout=1500):
+def run_unit(name, carve=None, mutate=None, tag='main', verify_fn=None, timeout=1500, features=None):
     U = load_unit(name)
     deps = None
     if getattr(U, 'repo_build', None):
         deps = build_repo(U.repo_build)
     sp = splice.Splicer(U, variant_carve=carve, mutate=mutate)
+    sp.build_info = {'features': dict(deps[2], **(features or {}))} if deps else {}
     gen = sp.build()
+    gen.build_info = sp.build_info
     gen.unit_name = name
     gen.kind_tags = getattr(U, 'kind_tags', {})
     path = os.path.join(OUT, 'gen', '%s_%s.rs' % (name, tag))
